@@ -318,3 +318,20 @@ pub fn post_c02(exp: &Exp) {
         i += 1;
     }
 }
+
+/// like `post_c02`, with every expectation attributed to the property it belongs to
+pub fn post_tagged(exp: &Exp) {
+    assert!(nrep() == exp.n, "C02: number of reports differs from the number of independent faults");
+    let mut i = 0;
+    while i < exp.n {
+        let c = count_in_log(&exp.r[i]);
+        match exp.r[i].tag {
+            8 => assert!(c == 1, "C08: a missing field is not reported exactly once with its effective key at the container"),
+            9 => assert!(c == 1, "C09: an unknown key is not reported exactly once with the accepted keys at the container"),
+            10 => assert!(c == 1, "C10: the tag / variant fault is not reported exactly once at the right place"),
+            11 => assert!(c == 1, "C11: a failed conversion / validation is not reported exactly once at the right place"),
+            _ => assert!(c == 1, "C02: an independent fault was not reported exactly once (kind, location, detail)"),
+        }
+        i += 1;
+    }
+}
